@@ -61,6 +61,8 @@ def cases(tier, seed):
                            "live": (h + j + len(sub)) % 3 == 0}
 
 
+    for c in sampler_cases():
+        yield c
     # crops with two- and three-digit batch ids: first / last / odd / all
     # but one finished
     for B, N, mode in ((11, 11, "batchsize"), (12, 25, "num_batches"),
@@ -75,6 +77,63 @@ def cases(tier, seed):
                    "live": si % 3 == 0}
 
 
+def sampler_cases():
+    # a Sampler's crop: the partial reap is a table with a row per sample
+    for N, bs in ((4, 2), (6, 2), (5, 2), (3, 1)):
+        B = -(-N // bs)
+        for k in range(1, B):
+            for sub in itertools.combinations(range(1, B + 1), k):
+                for live in (False, True):
+                    yield {"sampler": True, "N": N, "bs": bs,
+                           "finished": list(sub), "live": live}
+
+
+def check_sampler(case):
+    import numpy as np
+    import xyzpy as xyz
+    from xyzpy.gen.cropping import grow
+
+    N, bs, sub = case["N"], case["bs"], case["finished"]
+    d = core.fresh_dir("c09s.results[1]")
+    f = xfn.make_fn(["a", "b"], kind="num", name="f09s")
+    smp = xyz.Sampler(xyz.Runner(f, var_names="out"),
+                      os.path.join(d, "table.pkl"),
+                      default_combos={"a": [1, 2, 3, 4, 5], "b": [10, 20, 30]})
+    crop = smp.Crop(name="k", parent_dir=d, batchsize=bs)
+    np.random.seed(9)
+    crop.sow_samples(N, verbosity=0)
+    vio = []
+
+    def key(sym):
+        return "C09|sampler|num|batchsize|" + sym
+
+    with xfn.CallLog() as log:
+        for i in sub:
+            grow(i, crop=xyz.Crop(name="k", parent_dir=d), verbosity=0)
+    have = set(log.encs())
+    c = crop if case["live"] else xyz.Crop(name="k", parent_dir=d)
+    try:
+        res = c.reap(allow_incomplete=True)
+        rows = cmp.df_rows(res)
+        done = [r for r in rows if r.get("out") is not None]
+        if len(rows) != N:
+            vio.append((key("partial-rows"), "partial reap of %d samples "
+                        "(batches %r of %d finished) returned %d rows"
+                        % (N, sub, -(-N // bs), len(rows))))
+        elif sorted(xfn.enc(dict(a=r["a"], b=r["b"])) for r in done) != \
+                sorted(have) or any(
+                    r["out"] != xfn.expected("num", dict(a=r["a"], b=r["b"]))
+                    for r in done):
+            vio.append((key("partial-values"), "partial reap: rows with a "
+                        "value %r, finished settings %r" % (done, sorted(have))))
+        if not os.path.isdir(os.path.join(d, ".xyz-k")):
+            vio.append((key("partial-deleted"), "the partial reap deleted "
+                        "the crop"))
+    except Exception as e:
+        vio.append((key("partial-raised:" + type(e).__name__), repr(e)))
+    return {"nontrivial": True, "outcome": "sampler", "violations": vio}
+
+
 def worker_init():
     import xyzpy  # noqa
 
@@ -84,6 +143,8 @@ def check_case(case):
     import xyzpy as xyz
     from xyzpy.gen.cropping import grow
 
+    if case.get("sampler"):
+        return check_sampler(case)
     N, mode, req = case["N"], case["mode"], case["req"]
     form, kind, sub = case["form"], case["kind"], case["finished"]
     shape = factorise(N)[:2] if len(factorise(N)) <= 2 else (N,)
